@@ -38,6 +38,11 @@ def operators(etl):
     ops['unique'] = (1, lambda a, **kw: etl.unique(a, 'k', **kw), 'k')
     ops['conflicts'] = (1, lambda a, **kw: etl.conflicts(a, 'k', **kw), 'k')
     ops['distinct'] = (1, lambda a, **kw: etl.distinct(a, 'k', **kw), 'k')
+    # without a key: whole rows (presorted: by all fields)
+    ops['distinct(key=None)'] = (1, lambda a, **kw: etl.distinct(a, **kw), ())
+    ops['duplicates(key=None)'] = (1, lambda a, **kw: etl.duplicates(a, **kw), ())
+    ops['unique(key=None)'] = (1, lambda a, **kw: etl.unique(a, **kw), ())
+    ops['distinct(key=None, count)'] = (1, lambda a, **kw: etl.distinct(a, count='n', **kw), ())
     ops['distinct(count)'] = (1, lambda a, **kw: etl.distinct(a, 'k', count='n', **kw), 'k')
     ops['aggregate'] = (1, lambda a, **kw: etl.aggregate(a, 'k', list, 'v', **kw), 'k')
     ops['aggregate(multi)'] = (1, lambda a, **kw: etl.aggregate(a, 'k', OrderedDict([('n', len), ('l', ('v', list))]), **kw), 'k')
